@@ -143,9 +143,10 @@ def case_partition(dc, case, res, tie=None, rng=None, budget_big=60):
     n, k = case["n"], case["n_chunks"]
     N = n * (n - 1) // 2
     full = list(dc.lower_triangular_indices(n))
+    # the property asks for every pair exactly once; the ORDER of the enumeration is the model's business (tie), not the property's
     if len(full) != N or dc.get_number_of_lower_triangular_indices(n) != N or \
-            full != [(i, j) for i in range(n) for j in range(i)]:
-        res.fail("enumeration is not the pairs j<i<n in row-major order", case, {"len": len(full)}, "n(n-1)/2 pairs j<i<n")
+            sorted(tuple(p) for p in full) != [(i, j) for i in range(n) for j in range(i)]:
+        res.fail("enumeration is not every pair j<i<n exactly once", case, {"len": len(full)}, "n(n-1)/2 pairs j<i<n, each once")
     cs = range(k)
     if rng is not None and k > 40 and n > 14 and k * N > 200000:
         cs = sorted(set([0, 1, k - 1, k - 2] + [rng.randrange(k) for _ in range(budget_big // 10)]))
@@ -161,14 +162,14 @@ def case_partition(dc, case, res, tie=None, rng=None, budget_big=60):
         return
     if len(chunks) == k:
         cat = [p for c in range(k) for p in chunks[c]]
-        if cat != full:
+        if sorted(tuple(p) for p in cat) != sorted(tuple(p) for p in full):
             seen = {}
             for p in cat:
                 seen[p] = seen.get(p, 0) + 1
             res.fail("chunks do not partition the lower-triangular pairs", case,
                      {"concatenated_len": len(cat), "distinct": len(seen), "missing": [list(p) for p in sorted(set(full) - set(cat))][:5],
                       "duplicated": [list(p) for p in sorted(p for p, m in seen.items() if m > 1)][:5]},
-                     "concatenation over chunk indices equals every pair i>j exactly once")
+                     "the chunks together hold every pair i>j exactly once")
         sizes = [len(chunks[c]) for c in range(k)]
         if max(sizes) - min(sizes) > 1:
             res.fail("chunk sizes differ by more than one", case, sizes[:20], "max-min <= 1")
